@@ -30,6 +30,10 @@ class Prop(PropBase):
             cs.append(Case(sg.frames(rng, rng.choice([1, 2, 3]), mismatch=True), tag="frames-size-mismatch", oracle=False))
         for line in sg.padded_rows(rng, 300 if tier == "quick" else 6000):
             cs.append(Case(line, tag="padded-rows", cfgs=[rng.choice(CFGS) for _ in range(2)]))
+        for line in sg.reshapes(rng, 300 if tier == "quick" else 6000):
+            cs.append(Case(line, tag="reshapes-same-sequence", cfgs=[rng.choice(CFGS)]))
+        for line in sg.neighbour_after_move(rng, 300 if tier == "quick" else 6000):
+            cs.append(Case(line, tag="neighbour-after-move", cfgs=[rng.choice(CFGS)]))
         for line in sg.wide_runs(rng, tier):
             cs.append(Case(line, sweep="wide-runs", cfgs=[rng.choice(CFGS)]))
         for line, cf in sg.large_canvas_edits(rng, CFGS, tier):
